@@ -887,7 +887,7 @@ fn check_c13(tier: Tier) -> Report {
     let reg = registry();
     let pick = pick_hash;
     replay_regressions(prop, &reg, &pick, &mut report);
-    let cases = if tier == Tier::Thorough { 15_000 } else { 1500 };
+    let cases = if tier == Tier::Thorough { 30_000 } else { 4500 };
     let tolerated = known_types(prop);
     let (stats, fails, excluded) = run_types(&reg, &pick, seed, cases, &tolerated);
     ev.stats.merge(stats);
